@@ -696,6 +696,22 @@ impl GrafeoDB {
     ///
     /// If WAL is enabled, the operation is logged for durability.
     pub fn delete_node(&self, id: grafeo_common::types::NodeId) -> bool {
+        // Detach first: the store's delete_node leaves incident edges in place, which would
+        // leave edges pointing at a node that no longer exists (reported by `validate()`).
+        // Each edge goes through `delete_edge` so that it is logged like any other deletion.
+        if self.store.get_node(id).is_some() {
+            let mut incident: Vec<grafeo_common::types::EdgeId> = self
+                .store
+                .edges_from(id, grafeo_core::graph::Direction::Outgoing)
+                .map(|(_, edge_id)| edge_id)
+                .collect();
+            incident.extend(self.store.edges_to(id).into_iter().map(|(_, edge_id)| edge_id));
+            for edge_id in incident {
+                // a self-loop is listed in both directions; the second delete is a no-op
+                self.delete_edge(edge_id);
+            }
+        }
+
         let result = self.store.delete_node(id);
 
         #[cfg(feature = "wal")]
